@@ -716,4 +716,85 @@ theorem interp3d_single (x y z gx gy gz v : α) :
   congr 1
   ring
 
+/-! ### Battery-electric locomotive: `solve_energy_consumption` and the simulation step -/
+
+/-- what `belSolve` asks of the battery: the drivetrain's electrical input `pin` and the
+    auxiliary load, reduced to `max (min aux (prop_out_max − pin)) 0` when `pin ≤ 0` -/
+theorem belSolve_inv {k : Consts α} {res : RES α} {edrv : Edrv α} {req dt aux : α}
+    {pt : Powertrain α} (h : belSolve k res edrv req dt aux = .ok pt) :
+    ∃ res' edrv' aux', pt = .bel res' edrv' ∧ edrvReq edrv req dt = .ok edrv' ∧
+      resSolve k res edrv'.state.pwrElecPropIn aux' dt = .ok res' ∧
+      (0 < edrv'.state.pwrElecPropIn → aux' = aux) ∧
+      (¬ 0 < edrv'.state.pwrElecPropIn →
+        aux' = max (min aux (res.state.pwrPropOutMax - edrv'.state.pwrElecPropIn)) 0) := by
+  unfold belSolve at h
+  simp only [bind_eq_ok, pure_eq_ok, mx_eq_max, mn_eq_min] at h
+  obtain ⟨e', he, r', hr, rfl⟩ := h
+  by_cases hp : 0 < e'.state.pwrElecPropIn
+  · rw [if_pos hp] at hr
+    exact ⟨r', e', aux, rfl, he, hr, fun _ => rfl, fun hn => absurd hp hn⟩
+  · rw [if_neg hp] at hr
+    exact ⟨r', e', _, rfl, he, hr, fun hp' => absurd hp' hp, fun _ => rfl⟩
+
+theorem locoSolve_bel_ok {k : Consts α} {l l' : Loco α} {req dt : α} {on : Option Bool}
+    {res : RES α} {edrv : Edrv α} (hpt : l.pt = .bel res edrv)
+    (h : locoSolve k l req dt on = .ok l') :
+    belSolve k res edrv req dt l.state.pwrAux = .ok l'.pt ∧
+    l'.pwrAuxOffset = l.pwrAuxOffset ∧ l'.pwrAuxTractionCoeff = l.pwrAuxTractionCoeff ∧
+    l'.assertLimits = l.assertLimits := by
+  unfold locoSolve at h
+  rw [hpt] at h
+  simp only [bind_eq_ok, pure_eq_ok] at h
+  obtain ⟨pt, hb, rfl⟩ := h
+  exact ⟨hb, rfl, rfl, rfl⟩
+
+theorem locoSetCurMax_params {k : Consts α} {l l' : Loco α} {dt : α}
+    (h : locoSetCurMax k l dt = .ok l') :
+    l'.pwrAuxOffset = l.pwrAuxOffset ∧ l'.pwrAuxTractionCoeff = l.pwrAuxTractionCoeff := by
+  unfold locoSetCurMax at h
+  cases hpt : l.pt with
+  | conv fc gen edrv =>
+    rw [hpt] at h
+    simp only [bind_eq_ok] at h
+    obtain ⟨_, _, _, _, _, _, h⟩ := h
+    split at h
+    · cases h
+    · rw [pure_eq_ok] at h; subst h; exact ⟨rfl, rfl⟩
+  | bel res edrv =>
+    rw [hpt] at h
+    simp only [bind_eq_ok, pure_eq_ok] at h
+    obtain ⟨_, _, _, _, _, _, rfl⟩ := h
+    exact ⟨rfl, rfl⟩
+
+/-- the auxiliary load `set_pwr_aux` computes is non-negative for non-negative coefficients -/
+theorem locoSetAux_nonneg (l : Loco α) (on : Option Bool) (h0 : 0 ≤ l.pwrAuxOffset)
+    (h1 : 0 ≤ l.pwrAuxTractionCoeff) : 0 ≤ (locoSetAux l on).state.pwrAux := by
+  unfold locoSetAux
+  simp only [absv_eq_abs]
+  split_ifs
+  · exact add_nonneg h0 (mul_nonneg h1 (abs_nonneg _))
+  · exact le_refl _
+
+theorem locoSetAux_params (l : Loco α) (on : Option Bool) :
+    (locoSetAux l on).pt = l.pt ∧ (locoSetAux l on).pwrAuxOffset = l.pwrAuxOffset ∧
+    (locoSetAux l on).pwrAuxTractionCoeff = l.pwrAuxTractionCoeff := ⟨rfl, rfl, rfl⟩
+
+/-- one `LocomotiveSimulation::solve_step` of a battery unit, seen from the battery -/
+theorem locoSimStep_bel_ok {k : Consts α} {l l' : Loco α} {req dt : α} {on : Option Bool}
+    {res : RES α} {edrv : Edrv α} (hpt : l.pt = .bel res edrv)
+    (h : locoSimStep k l req dt on = .ok l') :
+    ∃ aux res1 edrv1, aux = (locoSetAux l on).state.pwrAux ∧
+      resSetCurMax k res aux 0 0 = .ok res1 ∧
+      belSolve k res1 edrv1 req dt aux = .ok l'.pt ∧
+      l'.pwrAuxOffset = l.pwrAuxOffset ∧ l'.pwrAuxTractionCoeff = l.pwrAuxTractionCoeff := by
+  unfold locoSimStep at h
+  simp only [bind_eq_ok, ensure_eq_ok, pure_eq_ok, exists_and_left, exists_const] at h
+  obtain ⟨l1, h1, l2, h2, _, rfl⟩ := h
+  have hpt0 : (locoSetAux l on).pt = .bel res edrv := hpt
+  obtain ⟨res1, edrv1, hp1, hres, _, _, _, _, _, haux, _⟩ := locoSetCurMax_bel_ok hpt0 h1
+  obtain ⟨hb, o1, o2, _⟩ := locoSolve_bel_ok hp1 h2
+  obtain ⟨p1, p2⟩ := locoSetCurMax_params h1
+  rw [haux] at hb
+  exact ⟨_, res1, edrv1, rfl, hres, hb, o1.trans p1, o2.trans p2⟩
+
 end Altrios.Proofs.LimitsL
